@@ -1221,6 +1221,8 @@ def _mk_if_raw(c, t, e):
         return _mk_if_raw(("op", "&&", [c, t[1]]), t[2], e)          # if a { if b { x } else { y } } else { y }  ==  if a && b { x } else { y }
     if t[0] == "if" and t[2] == e and not _diverges(e):
         return _mk_if_raw(("op", "&&", [c, _not(t[1])]), t[3], e)    # if a { if b { y } else { x } } else { y }  ==  if a && !b { x } else { y }
+    if e[0] == "if" and e[2] == t and not _diverges(t):
+        return _mk_if_raw(("op", "||", [c, e[1]]), t, e[3])          # if a { y } else { if b { y } else { x } }  ==  if a || b { y } else { x }
     if t[0] == "try" and e[0] == "try":
         return ("try", _mk_if_raw(c, t[1], e[1]))                    # if c { x? } else { y? }  ==  (if c { x } else { y })?
     if t[0] == "struct" and e[0] == "struct" and t[1] == e[1] and t[2] == e[2] and t[3] is not None and e[3] is not None and set(t[3]) == set(e[3]):
